@@ -211,3 +211,45 @@ m("x4-insert-keeps-old", "C10", MM, "        let mut regions = self.regions.clon
 m("x4-from-regions-skip-validate", "C10", MM, "        Self::from_arc_regions(regions.drain(..).map(Arc::new).collect())", "        Ok(Self { regions: regions.drain(..).map(Arc::new).collect() })", "?")
 m("x4-atomic-memory-two-loads", "C11", "src/atomic.rs", "        GuestMemoryLoadGuard { guard: self.load() }", "        let _probe = self.load();\n        GuestMemoryLoadGuard { guard: self.load() }", "?")
 m("x4-file-offset-start-ignored", "C15", UX, "(f_off.file().as_raw_fd(), f_off.start())", "(f_off.file().as_raw_fd(), 0)", "?")
+
+# ---------------------------------------------------------------- batch 5: wrong ADDITIONS (new code next to correct code)
+m("x5-endian-raw-cmp-method", "C20", "src/endian.rs", "            pub fn to_native(self) -> $old_type {",
+  "            pub fn is_value(&self, v: $old_type) -> bool {\n                self.0 == v\n            }\n\n            pub fn to_native(self) -> $old_type {", "?")
+m("x5-endian-le-bytes-of-raw", "C20", "src/endian.rs", "            pub fn to_native(self) -> $old_type {",
+  "            pub fn wire_bytes(self) -> [u8; core::mem::size_of::<$old_type>()] {\n                self.0.to_le_bytes()\n            }\n\n            pub fn to_native(self) -> $old_type {", "?")
+m("x5-endian-get-raw-as-native", "C20", "src/endian.rs", "            pub fn to_native(self) -> $old_type {",
+  "            pub fn get(self) -> $old_type {\n                self.0\n            }\n\n            pub fn to_native(self) -> $old_type {", "?")
+m("x5-atomic-update-unlock-first", "C11", "src/atomic.rs", "    pub fn replace(self, map: M) {",
+  "    pub fn publish_unlocked(self, map: M) {\n        let parent = self.parent;\n        drop(self);\n        parent.inner.0.store(Arc::new(map));\n    }\n\n    pub fn replace(self, map: M) {", "?")
+m("x5-atomic-store-outside-guard", "C11", "src/atomic.rs", "    pub fn lock(&self) -> LockResult<GuestMemoryExclusiveGuard<M>> {",
+  "    pub fn set(&self, map: M) {\n        self.inner.0.store(Arc::new(map))\n    }\n\n    pub fn lock(&self) -> LockResult<GuestMemoryExclusiveGuard<M>> {", "?")
+m("x5-atomic-try-lock-fresh-mutex", "C11", "src/atomic.rs", "    pub fn lock(&self) -> LockResult<GuestMemoryExclusiveGuard<M>> {",
+  "    pub fn lock_fresh(&self) -> GuestMemoryExclusiveGuard<M> {\n        let m: &'static Mutex<()> = Box::leak(Box::new(Mutex::new(())));\n        GuestMemoryExclusiveGuard { parent: self, _guard: m.lock().unwrap() }\n    }\n\n    pub fn lock(&self) -> LockResult<GuestMemoryExclusiveGuard<M>> {", "?")
+m("x5-stream-forwarder-swallows", "C14", IO, "impl WriteVolatile for Stdout {",
+  "impl<T: ReadVolatile> ReadVolatile for Box<T> {\n    fn read_volatile<B: BitmapSlice>(&mut self, buf: &mut VolatileSlice<B>) -> Result<usize, VolatileMemoryError> {\n        (**self).read_volatile(buf).or(Ok(0))\n    }\n}\n\nimpl WriteVolatile for Stdout {", "?")
+
+_REF_AT = "    pub fn ref_at(&self, index: usize) -> VolatileRef<'a, T, B> {"
+_SUBARRAY_ELEMS = """    pub fn subarray(&self, index: usize, count: usize) -> Result<VolatileArrayRef<'a, T, B>> {
+        let end = compute_offset(index, count)?;
+        if end > self.nelem CMP_TAIL {
+            return Err(Error::OutOfBounds { addr: end });
+        }
+        let byteofs = index.checked_mul(self.element_size()).ok_or(Error::TooBig { nelements: index, size: self.element_size() })?;
+        // SAFETY: test mutant
+        unsafe { Ok(VolatileArrayRef::with_bitmap(self.addr.add(byteofs), NELEM, self.bitmap.slice_at(byteofs), self.mmap)) }
+    }
+
+"""
+m("x5-subarray-end-plus-one", "C01", VM, _REF_AT, _SUBARRAY_ELEMS.replace("CMP_TAIL", "+ 1").replace("NELEM", "count") + _REF_AT, "?")
+m("x5-subarray-nelem-end", "C01", VM, _REF_AT, _SUBARRAY_ELEMS.replace("CMP_TAIL", "").replace("NELEM", "end") + _REF_AT, "?")
+_SUBARRAY_BYTES = """    pub fn subarray(&self, start: usize, count: usize) -> Result<VolatileArrayRef<'a, T, B>> {
+        let size = self.element_size();
+        let byteofs = start.checked_mul(size).ok_or(Error::TooBig { nelements: start, size })?;
+        let nbytes = count.checked_mul(size).ok_or(Error::TooBig { nelements: count, size })?;
+        let slice = self.to_slice().subslice(byteofs, NBYTES)?;
+        // SAFETY: test mutant
+        unsafe { Ok(VolatileArrayRef::with_bitmap(slice.addr, count, slice.bitmap, slice.mmap)) }
+    }
+
+"""
+m("x5-subarray-slice-of-count-bytes", "C01", VM, _REF_AT, _SUBARRAY_BYTES.replace("NBYTES", "count.min(nbytes)") + _REF_AT, "?")
